@@ -55,6 +55,9 @@ type announce struct {
 func (a announce) payload() []byte {
 	switch a.kind {
 	case 2:
+		if len(a.hosts) == 1 {
+			return []byte(`{"weights": {"http://m1:80": 1, "http://bad host:80:80": 1, "https://m2:443": 2}, "uriSpecificProperties": {"http://m1:80": {"com.linkedin.app.name": "x"}}}`)
+		}
 		return []byte(`{"weights": {"http://broken:80": `)
 	case 3:
 		return []byte(`{"weights": {}, "partitionDesc": {"http://p:80": {"0": {"weight": 1}}}}`)
@@ -65,7 +68,10 @@ func (a announce) payload() []byte {
 
 func genAnnounce(c *harness.Ctx) announce {
 	a := announce{node: nodePool[c.Choose(len(nodePool), "node")]}
-	a.kind = c.C.Weighted("ann-kind", 7, 3, 1, 1)
+	a.kind = c.C.Weighted("ann-kind", 7, 3, 2, 1)
+	if a.kind == 2 && c.Bool("malformed-shape") {
+		a.hosts = map[string]float64{"x": 1} // marks the "one bad host among several" shape
+	}
 	if a.kind == 0 {
 		a.hosts = map[string]float64{}
 		for i := 0; i < 1+c.Choose(2, "nhosts"); i++ {
